@@ -746,7 +746,10 @@ class Inliner:
                     rm, fn = r
                     if not self._free_names_agree(fn, rm, module):
                         return None
-                    return None, fn, None
+                    # a method that hands its whole job to a function of the same name (the body moved to a module function, the method kept
+                    # for the public API): for the rules the method still is that body, also when they anchor on its name
+                    same = getattr(self, "_current", None) is not None and self._current.name == fn.name
+                    return None, fn, ("samename" if same else None)
         return None
 
     def _free_names_agree(self, fn, rm, module) -> bool:
@@ -761,6 +764,14 @@ class Inliner:
             bound.add(fn.args.vararg.arg)
         if fn.args.kwarg:
             bound.add(fn.args.kwarg.arg)
+        # names bound in nested scopes (parameters of nested functions / lambdas, comprehension targets, their locals)
+        for n in ast.walk(fn):
+            if isinstance(n, ast.arg):
+                bound.add(n.arg)
+            elif isinstance(n, ast.Name) and isinstance(n.ctx, ast.Store):
+                bound.add(n.id)
+            elif isinstance(n, (ast.FunctionDef, ast.ClassDef)) and n is not fn:
+                bound.add(n.name)
         adopt: dict[str, str] = {}
         top = getattr(module, "_toplevel_names", None)
         if top is None:
@@ -825,10 +836,12 @@ class Inliner:
         if r is None:
             return None
         k, fn, recv = r
-        if not self._inlinable(fn, via_super=(recv == "super")):
+        if not self._inlinable(fn, via_super=(recv in ("super", "samename"))):
             return None
         if recv == "super":
             recv = "self"
+        if recv == "samename":
+            recv = None
         decos = [ast.unparse(d) for d in fn.decorator_list if not _transparent_decorator(d)]
         params = [a.arg for a in fn.args.args]
         defaults = dict(zip(params[len(params) - len(fn.args.defaults):], fn.args.defaults))
@@ -1209,8 +1222,56 @@ def _flag_condition(stmts, flag):
     return (lead, e) if e is not None else None
 
 
+def _delegating_methods(ct, inl) -> None:
+    """A method whose whole body is `return f(self, a, b)` with f a function of the package (typically of the same name: the body was moved
+    to a module function and the method kept for the public API) IS f's body with f's first parameter read as self - also when f defines
+    nested functions, which rules out statement-wise inlining."""
+    for ci in ct.by_qual.values():
+        for name, m in list(ci.methods.items()):
+            body = _strip_docstring(m.body)
+            if len(body) != 1 or not isinstance(body[0], ast.Return) or not isinstance(body[0].value, ast.Call) or m.decorator_list:
+                continue
+            call = body[0].value
+            if not isinstance(call.func, ast.Name) or call.keywords or not call.args or not all(isinstance(a, ast.Name) for a in call.args):
+                continue
+            params = [a.arg for a in m.args.args]
+            if m.args.vararg or m.args.kwarg or m.args.kwonlyargs or [a.id for a in call.args] != params or not params or params[0] != "self":
+                continue
+            dotted = ci.module.imports.get(call.func.id)
+            f = ci.module.functions.get(call.func.id)
+            rm = ci.module
+            if f is None and dotted:
+                r = ct.repo.resolve_dotted(dotted)
+                if r is not None and isinstance(r[1], ast.FunctionDef):
+                    rm, f = r
+            if f is None or f.decorator_list or f.args.vararg or f.args.kwarg or f.args.kwonlyargs or len(f.args.args) != len(params):
+                continue
+            if f.name != name and f.name in inl.anchors:
+                continue
+            if _contains(f.body, (ast.Yield, ast.YieldFrom, ast.Await, ast.Global, ast.Nonlocal)):
+                continue
+            fparams = [a.arg for a in f.args.args]
+            assigned = _assigned_names(f.body)
+            if any(p in assigned for p in fparams) or (set(params) - set(fparams)) & (assigned | {n.id for n in ast.walk(f) if isinstance(n, ast.Name)}):
+                continue
+            if not inl._free_names_agree(f, rm, ci.module):
+                continue
+            mapping = {fp: ast.Name(id=p, ctx=ast.Load()) for fp, p in zip(fparams, params) if fp != p}
+            new_body = [_Subst(mapping).visit(st) for st in copy.deepcopy(_strip_docstring(f.body))] if mapping else copy.deepcopy(_strip_docstring(f.body))
+            doc = m.body[:len(m.body) - len(body)]
+            m.body = doc + new_body
+            if rm is not ci.module:
+                for st in m.body[len(doc):]:
+                    for n in ast.walk(st):
+                        if hasattr(n, "lineno"):
+                            n.lineno = n.end_lineno = m.lineno
+            ast.fix_missing_locations(m)
+            inl.log.append(f"{ci.module.relpath}:{m.lineno} {f.name} (whole body of the delegating method {ci.name}.{name})")
+
+
 def inline_helpers(ct) -> list[str]:
     inl = Inliner(ct)
+    _delegating_methods(ct, inl)
     for ci in ct.by_qual.values():
         for fn in list(ci.methods.values()):
             inl.run_function(fn, ci, ci.module)
